@@ -50,6 +50,16 @@ pub fn print_parse(v: DecoderImplementation, name: &'static str) {
     kani::cover!(buf.n > 5);
 }
 
+/// quick-tier form of `print_parse`: Display and FromStr only (clap's own parser is exercised in
+/// the thorough tier; that clap offers the name is `clap_name`)
+pub fn print_fromstr(v: DecoderImplementation, name: &'static str) {
+    let mut buf = Buf { b: [0; 64], n: 0 };
+    assert!(write!(buf, "{}", v).is_ok());
+    assert!(eq_bytes(&buf.b[..buf.n], name.as_bytes()));
+    assert!(<DecoderImplementation as FromStr>::from_str(name) == Ok(v));
+    kani::cover!(buf.n > 5);
+}
+
 pub fn clap_name(v: DecoderImplementation, name: &'static str) {
     let pv = v.to_possible_value();
     assert!(pv.is_some());
@@ -88,7 +98,12 @@ pub fn builds_named_type(v: DecoderImplementation, name: &'static str) {
 }
 
 macro_rules! c18_name {
-    ($var:ident, $pp:ident, $cl:ident, $ty:ident) => {
+    ($var:ident, $pp:ident, $cl:ident, $ty:ident, $pf:ident) => {
+        #[kani::proof]
+        #[kani::unwind(50)]
+        fn $pf() {
+            print_fromstr(DecoderImplementation::$var, stringify!($var));
+        }
         #[kani::proof]
         #[kani::unwind(50)]
         fn $pp() {
